@@ -25,7 +25,23 @@ def mk(arr):
     if int(dt) >= 7:
         # complex leaves: the protocol integer d stands for (d & 7) + (d >> 3) j, so imaginary parts are exercised
         vals = [complex(d & 7, d >> 3) for d in vals]
-    return np.array(vals, dtype=NP_DTYPES[int(dt)]).reshape([int(x) for x in shape])
+    a = np.array(vals, dtype=NP_DTYPES[int(dt)]).reshape([int(x) for x in shape])
+    return relayout(a, (sum(int(x) for x in data) + 3 * len(shape) + int(dt)) % 6)
+
+
+def relayout(a, how):
+    """the same logical array in another memory layout (the protocol fixes values, shape and dtype only)"""
+    if a.ndim == 0:
+        return a
+    if how == 1:
+        return np.asfortranarray(a)                                  # column-major
+    if how == 2 and a.ndim >= 2:
+        return np.ascontiguousarray(np.moveaxis(a, 0, -1)).transpose([a.ndim - 1, *range(a.ndim - 1)])   # permuted-axes view
+    if how == 3:
+        return np.repeat(a, 2, axis=-1)[..., ::2]                    # strided view
+    if how == 4:
+        return np.ascontiguousarray(a[::-1])[::-1]                   # negative stride
+    return a
 
 
 def enc(a):
